@@ -192,6 +192,13 @@ def check_C08(ctx):
         for bad in errs_runtime[:4] + [b"var z = 0\nprint 10 / z -\n   100\n", b'var s = "x"\nprint -s\n  + 1\n', b"def q { x = nosuch + 2 }\n"] + errs_compile[:3]:
             srcs.append(big + bad + b"print 1\n")
             srcs.append(biglocals + bad)
+    # errors raised at the implementation limits: the operand stack exactly full when the next push happens
+    for n in (1022, 1023, 1024):
+        decl = b"".join(b"var v%d = %d\n" % (i, i) for i in range(n))
+        srcs.append(decl + b"\n\nprint v0 +\n   v1 + 2\n")
+        srcs.append(decl + b"def b {\n  x = v0\n}\n")
+        srcs.append(b"print " + b"1+(" * n + b"1" + b")" * n + b"\n")
+    srcs.append(b"def a {" * 16 + b"\n  def deep { x = 1 }\n" + b"}" * 16 + b"\n")
     cases = [dict(id="d%d" % i, src=s) for i, s in enumerate(srcs)]
     rs, missing, err = interp.run(ctx, cases)
     decide(ctx, rs, missing, err, {"log", "err", "parts"}, "C08_compile_diag/C08_runtime", "diag", spec=False)
@@ -443,6 +450,13 @@ def limit_programs(thorough):
               b"-9223372036854775807 - 1", b"(-9223372036854775807 - 1) / -1", b"(-9223372036854775807 - 1) * -1", b"1 / 0", b"1.0 / 0",
               b"0.0 / 0.0", b"1 / 0.0", b"-(0.0)", b"9223372036854775807 + 1", b"1e308 * 10", b"nil + 1", b'1 + "a"']:
         out.append(("op", b"print " + e + b"\n"))
+    for sel in (b"", b":1", b":first", b":last", b":all"):
+        for tgt in (b"struct", b"slice"):
+            out.append(("bindnone", b"bind nosuch" + sel + b" -> " + tgt + b"\n"))
+            out.append(("bindnone2", b"def other {}\nbind nosuch" + sel + b" -> " + tgt + b"\nprint 1\n"))
+            out.append(("bindin", b"def t {}\ndef w { bind t" + sel + b" -> " + tgt + b" }\n"))
+    for stray in (b"}", b"def a {} }", b"print 1 } print 2", b"} } }", b"def a { } } def b {", b")", b"print 1 ) print 2", b"var x = 1 }\nprint x\n"):
+        out.append(("stray", stray + b"\n"))
     out.append(("blockeq", b"def a { def b {}\n print b == b\n print b != b\n print b == 1 }\n"))
     out.append(("blockops", b"def a { def b {}\n x = b\n print x\n print not b\n print b and 1\n print b or 1 }\n"))
     out.append(("blockadd", b"def a { def b {}\n print \"s\" + b }\n"))
